@@ -144,6 +144,56 @@ class ClassInfo:
         return "<class %s>" % self.qual
 
 
+def _has_continue(stmts):
+    """A `continue` that belongs to the loop whose body `stmts` is."""
+    for s in stmts:
+        if isinstance(s, ast.Continue):
+            return True
+        if isinstance(s, (ast.While, ast.For, ast.FunctionDef, ast.ClassDef)):
+            continue
+        for f in ("body", "orelse", "finalbody"):
+            if _has_continue(getattr(s, f, []) or []):
+                return True
+        for h in getattr(s, "handlers", []) or []:
+            if _has_continue(h.body):
+                return True
+    return False
+
+
+class _RotateLoops(ast.NodeTransformer):
+    """`x = E; while T: B; x = E`  ->  `while True: x = E; if not T: break; B`.
+
+    The priming-read form of a loop and the test-in-the-middle form run the same statements in the same
+    order; the second keeps what `E` established in scope of `B`, which is what the path rules read."""
+
+    def _block(self, stmts):
+        out = []
+        for s in stmts:
+            prev = out[-1] if out else None
+            if (isinstance(s, ast.While) and not s.orelse and isinstance(prev, ast.Assign) and s.body
+                    and isinstance(s.body[-1], ast.Assign) and len(s.body) > 1
+                    and ast.dump(prev) == ast.dump(s.body[-1]) and not _has_continue(s.body)
+                    and not (isinstance(s.test, ast.Constant) and s.test.value is True)):
+                out.pop()
+                brk = ast.copy_location(ast.Break(), s.test)
+                guard = ast.copy_location(ast.If(test=ast.copy_location(ast.UnaryOp(op=ast.Not(), operand=s.test), s.test),
+                                                 body=[brk], orelse=[]), s.test)
+                loop = ast.copy_location(ast.While(test=ast.copy_location(ast.Constant(value=True), s.test),
+                                                   body=[s.body[-1], guard] + s.body[:-1], orelse=[]), s)
+                out.append(loop)
+            else:
+                out.append(s)
+        return out
+
+    def generic_visit(self, node):
+        super().generic_visit(node)
+        for f in ("body", "orelse", "finalbody"):
+            v = getattr(node, f, None)
+            if isinstance(v, list) and v and isinstance(v[0], ast.stmt):
+                setattr(node, f, self._block(v))
+        return node
+
+
 class ModuleInfo:
     def __init__(self, name, path, src):
         self.name = name
@@ -154,6 +204,7 @@ class ModuleInfo:
             self.tree = ast.parse(src, filename=path)
         except SyntaxError as e:
             raise AnalysisError("cannot parse %s: %s" % (path, e))
+        self.tree = ast.fix_missing_locations(_RotateLoops().visit(self.tree))
         self.imports = {}   # local name -> ('mod', dotted) | ('from', dotted_module, name)
         self.consts = {}    # name -> value expr (module-level assignments)
         self.classes = {}
